@@ -93,7 +93,8 @@ def random_features(rng, n, max_feats=3, allow_unnamed=False, codon_starts=False
             parts = sorted(rng.sample(range(1, total // 3), nseg - 1))
             lens = [3 * (b - a) for a, b in zip([0] + parts, parts + [total // 3])]
             break
-        gaps = [rng.randint(1, 4) for _ in range(nseg - 1)]
+        # the segments of a join are apart, or (a -1 frameshift, join(266..13468,13468..21555)) share one base
+        gaps = [rng.choice([1, 2, 3, 4, -1]) if lens[i] >= 2 else rng.randint(1, 4) for i in range(nseg - 1)]      # (rows of one feature keep distinct starts)
         span = sum(lens) + sum(gaps)
         if span > n - 2:
             continue
